@@ -17,7 +17,7 @@ theorem inv_init (addr0 : Nat → Nat) : Inv (init addr0) := by
 theorem inv_step {s a s'} (h : Inv s) (hs : step s a = some s') : Inv s' := by
   obtain ⟨h1, h2, h3⟩ := h
   cases a <;> simp only [step] at hs
-  case invite => simp at hs; subst hs; exact ⟨h1, h2, h3⟩
+  case message cs => simp at hs; subst hs; exact ⟨h1, h2, h3⟩
   case unrelated => simp at hs; subst hs; exact ⟨h1, h2, h3⟩
   all_goals
     (split at hs <;> (try split at hs) <;> (try split at hs) <;> (try simp at hs) <;> (try subst hs) <;>
